@@ -300,8 +300,15 @@ def rule_cases(tangent):
     if isinstance(tangent, T.Term) and tangent.op == "ite" and is_shape_test(tangent.args[0]):
         c = tangent.args[0]
         wide, square = (tangent.args[1], tangent.args[2]) if c.op == "ne" else (tangent.args[2], tangent.args[1])
-        cases.append(("non-square R (wide input)", "wide", wide, c))
-        split_where("square R, ", square)
+        subject = c.args[0].args[0].args[0]
+        if struct(subject) == "upper":
+            # the reduced factor R is min(n, m) x m: non-square exactly for wide inputs
+            cases.append(("non-square R (wide input)", "wide", wide, c))
+            split_where("square R, ", square)
+        else:
+            # a shape test on anything else (the input itself) also sends the tall inputs to this branch, and those are what the package factorises
+            cases.append((f"non-square {T.show(subject, 2)} (tall and wide inputs)", "all", wide, c))
+            split_where(f"square {T.show(subject, 2)}, ", square)
     else:
         split_where("", tangent)
     return cases
